@@ -164,17 +164,27 @@ func zzC02Call(c zzCallable, kinds []int, kw int) {
 // zzH02_call1: every callable × {0 or 1 positional argument from the whole pool} × optional keyword.
 //
 //verif:unwind 80
+//verif:timeout 3000
 func zzH02_call1() {
 	cs := zzCallables()
 	ci := zzChoice("callable", len(cs))
 	c := cs[ci]
 	n := zzChoice("nargs", 2)
 	var kinds []int
+	full := zzParam("full_pool", 0, 1) == 1
 	if n == 1 {
-		kinds = []int{zzChoice("k0", zzPoolSize)}
+		var k0 int
+		if full {
+			k0 = zzChoice("k0", zzPoolSize)
+		} else {
+			// quick tier: 8 of the 16 kinds (symbolic floats make every comparison a
+			// floating-point query; the remaining kinds are in the thorough tier)
+			k0 = []int{0, 2, 3, 4, 6, 9, 12, 14}[zzChoice("k0", 8)]
+		}
+		kinds = []int{k0}
 	}
 	kw := -1
-	if zzChoice("haskw", 2) == 1 {
+	if full && zzChoice("haskw", 2) == 1 {
 		kw = zzChoice("kwkind", 3) * 2 // None, smallint, negbig
 	}
 	zzC02Call(c, kinds, kw)
@@ -184,6 +194,8 @@ func zzH02_call1() {
 // zzH02_call2: every callable × two positional arguments (quick: reduced pool).
 //
 //verif:unwind 80
+//verif:timeout 3000
+//verif:thorough
 func zzH02_call2() {
 	cs := zzCallables()
 	c := cs[zzChoice("callable", len(cs))]
@@ -201,6 +213,7 @@ func zzH02_call2() {
 // zzH02_call3: three arguments from {None, smallint, bigint} (index/count style parameters).
 //
 //verif:unwind 80
+//verif:timeout 3000
 //verif:thorough
 func zzH02_call3() {
 	cs := zzCallables()
